@@ -60,8 +60,12 @@ def addr(rnd, tab, write=False):
         ty = rnd.choice(["I", "O"])
         fno = 1 if ty == "I" else 0
         e = rnd.randint(0, 20)
-        form = rnd.randint(0, 2)
-        if form == 0:
+        form = rnd.randint(0, 3)
+        if form == 3:                                       # a bit of a word other than the first of the slot
+            p, b = rnd.randint(0, 5), rnd.randint(0, 15)
+            s = "%s:%d.%d/%d" % (ty, e, p, b)
+            it.update({"ftype": ty, "file": fno, "elem": e, "pos": p, "bit": b})
+        elif form == 0:
             s = "%s:%d" % (ty, e)
             it.update({"ftype": ty, "file": fno, "elem": e})
         elif form == 1:
@@ -147,6 +151,13 @@ def run(ctx):
         ctx.add_tlc(r, "R1")
     rnd = random.Random(ctx.seed * 733 + 18)
     scs = gen(rnd, 1500 if thorough else 160)
+    # a status-0 reply whose data stops before the addressed element(s) end (single-address reads): never a value
+    from . import c13
+    single = [s for s in gen(rnd, 300 if thorough else 60)]
+    for s in single:
+        s["id"] = "sd" + s["id"]
+        s["calls"] = [c for c in s["calls"] if c["api"] not in ("read", "write") or len(c["tags"]) == 1]
+    scs += c13.corrupt_one_call(rnd, single, kinds=("trunc",), family="slc-short-data")
     results = se.run_all(ctx, scs, "c18")
     ctx.traces = len(results)
     se.report(ctx, results, lambda r, clause, ev: {"family": r["sc"]["family"], "api": next((e["api"] for e in reversed(r["trace"]["events"][:r["at"]]) if e["k"] == "call"), ""),
